@@ -4,10 +4,19 @@
 
   A Go file is projected to a list of top-level declarations. Everything the merge code looks at is
   kept: names, receiver keys, directive actions of the associated comment groups, the selector heads
-  `X.` with unresolved `X` (what `pruneImports` scans), and for every comment group whether it carries a
+  (see below), and for every comment group whether it carries a
   `//go:linkname ` / `//go:embed ` line. Everything the merge code treats as opaque (bodies, signatures,
   initialiser expressions) is an identity number assigned by the projection (pointer identity of the
   AST node), so that "the original body under the new signature" is visible.
+
+  INPUT CONTRACT for every `sels` / `tsels` / `bsels` list: it holds the base identifiers `X` of the selector
+  expressions `X.Sel` of that subtree whose `X` DOES NOT RESOLVE TO A FILE-LOCAL OBJECT — i.e. `X` names an
+  import, a universe or dot-imported object, nothing at all, or a package-level object declared in another file.
+  A local variable, parameter, receiver, named result, type parameter or a package-level declaration of the same
+  file spelled like an import is NOT in the list. build.go:487-489 implements this test as `id.Obj == nil`, which
+  is only correct when the files were parsed WITH the parser's object resolution (build.go:231,256 use plain
+  `parser.ParseComments`); the harness computes the lists with go/types, independently of `ast.Object`, and the
+  tie through the real `parseAndAugment` (which does its own parsing) checks that the two agree.
 
   Slices whose elements are set to `nil` and squeezed later (`file.Decls`, `GenDecl.Specs`,
   `ValueSpec.Names`, `ValueSpec.Values`) are lists of `Option`s; parsed files contain no `none`.
@@ -219,7 +228,8 @@ def Decl.sels : Decl → List String
   | .func f => f.sig.sels ++ f.bsels
   | .gen _ _ _ specs => (specs.filterMap id).flatMap Spec.sels
 
-/-- the selector heads `ast.Inspect(file, …)` meets (build.go:486-493) -/
+/-- the selector bases `ast.Inspect(file, …)` meets that do not resolve to a file-local object (build.go:486-493;
+see the input contract in the header) -/
 def fileSels (f : File) : List String := (f.decls.filterMap id).flatMap Decl.sels
 
 /-- build.go:478-483 -/
